@@ -792,76 +792,86 @@ func replayEdge(c *core.Ctx, b *Built, p *valPayload, n int) ([]finding, error) 
 		}
 		return map[string]any{"op": "read1", "in": e.TL1}, len(e.TL1)
 	}
+	// every history in its pure forms (TL1 -> TL1, TL2 -> TL2, JSON -> JSON) and in one mixed pair that
+	// rotates with the edge number and the seed
 	f1, f2 := (n+int(c.Seed))%4, ((n+int(c.Seed))/4)%4
-	s1, _ := mk(p.From, f1)
-	s2, want2 := mk(p.To, f2)
-	for _, bytesVariant := range []bool{false, true} {
-		if bytesVariant && b.Corpus.BytesVers == "" {
+	seenPair := map[string]bool{}
+	for _, fp := range [][2]int{{0, 0}, {2, 2}, {3, 3}, {f1, f2}} {
+		s1, _ := mk(p.From, fp[0])
+		s2, want2 := mk(p.To, fp[1])
+		pk := fmt.Sprint(s1["op"], s2["op"])
+		if seenPair[pk] {
 			continue
 		}
-		steps := []map[string]any{s1, s2}
-		// a failing read in between (truncated input), then the good one again
-		if in, ok := s2["in"].([]int); ok && len(in) > 0 {
-			steps = []map[string]any{s1, {"op": s2["op"], "in": in[:len(in)-1]}, s2}
-		}
-		steps = append(steps, map[string]any{"op": "reset"})
-		r, err := b.script(p.Tn, bytesVariant, steps...)
-		if err != nil {
-			return nil, err
-		}
-		fresh, err := b.script(p.Tn, bytesVariant, map[string]any{"op": "new"})
-		if err != nil {
-			return nil, err
-		}
-		c.Add("evaluations", 1)
-		key := fmt.Sprintf("%v/%v->%v/%s->%s", bytesVariant, s1["op"], s2["op"], hexs(p.From.TL1), hexs(p.To.TL1))
-		last := r.Steps[len(r.Steps)-2]
-		rst := r.Steps[len(r.Steps)-1]
-		for _, st := range r.Steps {
-			if st.Panic != "" {
-				fs = append(fs, finding{"reuse", key, "panic: " + st.Panic})
+		seenPair[pk] = true
+		for _, bytesVariant := range []bool{false, true} {
+			if bytesVariant && b.Corpus.BytesVers == "" {
+				continue
 			}
-		}
-		if len(r.Steps) == 4 {
-			mid := r.Steps[1]
-			fr, err := b.script(p.Tn, bytesVariant, steps[1])
+			steps := []map[string]any{s1, s2}
+			// a failing read in between (truncated input), then the good one again
+			if in, ok := s2["in"].([]int); ok && len(in) > 0 {
+				steps = []map[string]any{s1, {"op": s2["op"], "in": in[:len(in)-1]}, s2}
+			}
+			steps = append(steps, map[string]any{"op": "reset"})
+			r, err := b.script(p.Tn, bytesVariant, steps...)
 			if err != nil {
 				return nil, err
 			}
-			if (mid.Err == "") != (fr.Steps[0].Err == "") {
-				fs = append(fs, finding{"reuse", key, fmt.Sprintf("truncated input: reused object err=%q, fresh object err=%q", mid.Err, fr.Steps[0].Err)})
+			fresh, err := b.script(p.Tn, bytesVariant, map[string]any{"op": "new"})
+			if err != nil {
+				return nil, err
 			}
-		}
-		switch {
-		case last.Err != "":
-			fs = append(fs, finding{"reuse", key, fmt.Sprintf("valid input rejected by the reused object: %s", last.Err)})
-		case last.Dump != nil:
-			if want2 >= 0 && last.Consumed != want2 {
-				fs = append(fs, finding{"reuse", key, fmt.Sprintf("reused object consumed %d of %d", last.Consumed, want2)})
+			c.Add("evaluations", 1)
+			key := fmt.Sprintf("%v/%v->%v/%s->%s", bytesVariant, s1["op"], s2["op"], hexs(p.From.TL1), hexs(p.To.TL1))
+			last := r.Steps[len(r.Steps)-2]
+			rst := r.Steps[len(r.Steps)-1]
+			for _, st := range r.Steps {
+				if st.Panic != "" {
+					fs = append(fs, finding{"reuse", key, "panic: " + st.Panic})
+				}
 			}
-			if last.Dump.TL1Err != "" || !eqInts(last.Dump.TL1, p.To.TL1) {
-				fs = append(fs, finding{"reuse", key, fmt.Sprintf("reused object holds TL1 %s %s, a fresh one %s", hexs(last.Dump.TL1), last.Dump.TL1Err, hexs(p.To.TL1))})
-			}
-			if p.HasTL2 && last.Dump.HasTL2 && !eqInts(last.Dump.TL2, p.To.TL2) {
-				fs = append(fs, finding{"reuse", key, fmt.Sprintf("reused object holds TL2 %s, a fresh one %s", hexs(last.Dump.TL2), hexs(p.To.TL2))})
-			}
-			if p.BadKey {
-				// no valid JSON exists for this value (C05's known finding); C09 only asks for "same as fresh"
-				fr2, err := b.script(p.Tn, bytesVariant, s2)
+			if len(r.Steps) == 4 {
+				mid := r.Steps[1]
+				fr, err := b.script(p.Tn, bytesVariant, steps[1])
 				if err != nil {
 					return nil, err
 				}
-				if d := fr2.Steps[0].Dump; d != nil && d.JSON != last.Dump.JSON {
-					fs = append(fs, finding{"reuse", key, fmt.Sprintf("reused object prints JSON %s, a fresh one %s", last.Dump.JSON, d.JSON)})
+				if (mid.Err == "") != (fr.Steps[0].Err == "") {
+					fs = append(fs, finding{"reuse", key, fmt.Sprintf("truncated input: reused object err=%q, fresh object err=%q", mid.Err, fr.Steps[0].Err)})
 				}
-			} else if got, err := parseJSON(last.Dump.JSON); err != nil || p.To.JSON.Match(got, "$") != nil {
-				fs = append(fs, finding{"reuse", key, fmt.Sprintf("reused object prints JSON %s, not the fresh object's", last.Dump.JSON)})
 			}
-		}
-		if rst.Err == "" && rst.Dump != nil && fresh.Steps[0].Dump != nil {
-			a, f := rst.Dump, fresh.Steps[0].Dump
-			if !eqInts(a.TL1, f.TL1) || !eqInts(a.TL2, f.TL2) || a.JSON != f.JSON || a.TL1Err != f.TL1Err {
-				fs = append(fs, finding{"reuse", key + "/reset", fmt.Sprintf("after Reset the object writes %s / %s / %s, a fresh one %s / %s / %s", hexs(a.TL1), hexs(a.TL2), a.JSON, hexs(f.TL1), hexs(f.TL2), f.JSON)})
+			switch {
+			case last.Err != "":
+				fs = append(fs, finding{"reuse", key, fmt.Sprintf("valid input rejected by the reused object: %s", last.Err)})
+			case last.Dump != nil:
+				if want2 >= 0 && last.Consumed != want2 {
+					fs = append(fs, finding{"reuse", key, fmt.Sprintf("reused object consumed %d of %d", last.Consumed, want2)})
+				}
+				if last.Dump.TL1Err != "" || !eqInts(last.Dump.TL1, p.To.TL1) {
+					fs = append(fs, finding{"reuse", key, fmt.Sprintf("reused object holds TL1 %s %s, a fresh one %s", hexs(last.Dump.TL1), last.Dump.TL1Err, hexs(p.To.TL1))})
+				}
+				if p.HasTL2 && last.Dump.HasTL2 && !eqInts(last.Dump.TL2, p.To.TL2) {
+					fs = append(fs, finding{"reuse", key, fmt.Sprintf("reused object holds TL2 %s, a fresh one %s", hexs(last.Dump.TL2), hexs(p.To.TL2))})
+				}
+				if p.BadKey {
+					// no valid JSON exists for this value (C05's known finding); C09 only asks for "same as fresh"
+					fr2, err := b.script(p.Tn, bytesVariant, s2)
+					if err != nil {
+						return nil, err
+					}
+					if d := fr2.Steps[0].Dump; d != nil && d.JSON != last.Dump.JSON {
+						fs = append(fs, finding{"reuse", key, fmt.Sprintf("reused object prints JSON %s, a fresh one %s", last.Dump.JSON, d.JSON)})
+					}
+				} else if got, err := parseJSON(last.Dump.JSON); err != nil || p.To.JSON.Match(got, "$") != nil {
+					fs = append(fs, finding{"reuse", key, fmt.Sprintf("reused object prints JSON %s, not the fresh object's", last.Dump.JSON)})
+				}
+			}
+			if rst.Err == "" && rst.Dump != nil && fresh.Steps[0].Dump != nil {
+				a, f := rst.Dump, fresh.Steps[0].Dump
+				if !eqInts(a.TL1, f.TL1) || !eqInts(a.TL2, f.TL2) || a.JSON != f.JSON || a.TL1Err != f.TL1Err {
+					fs = append(fs, finding{"reuse", key + "/reset", fmt.Sprintf("after Reset the object writes %s / %s / %s, a fresh one %s / %s / %s", hexs(a.TL1), hexs(a.TL2), a.JSON, hexs(f.TL1), hexs(f.TL2), f.JSON)})
+				}
 			}
 		}
 	}
